@@ -1,12 +1,50 @@
-import Sm9.Proofs.GroupBasic
+import Sm9.Proofs.Decoders
 /-!
 # C10 — Point encodings round-trip and follow the SM9 byte formats
-First landing: format shapes (prefix bytes, layout x‖y, imaginary part first), the
-identity cannot be encoded (modelled panic), encodings are a function of the affine
-conversion only.
+
+For every valid non-identity value in **any** representation: the raw, 0x04-prefixed and
+0x02/0x03-prefixed encodings are the big-endian affine coordinates (imaginary part first in
+G2, prefix by parity of y / of Re y), depend only on the denoted point, and decode back to a
+value `==` to the original — G1 in all three formats; G2 raw and uncompressed for subgroup
+points; compressed G2 up to sign unconditionally and exactly under Re y ≠ 0 (`…_partial`:
+missing is a proof that no point of the order-r subgroup has Re y = 0).  The identity cannot be
+encoded (panic, as in the crate).
 -/
 namespace Sm9.C10
 
+theorem g1_slice_roundtrip (P : G1) (hP : G1.Valid P) (hz : P.z ≠ 0) :
+    ∃ bs P', Api.g1ToSlice P = .ok bs ∧ Api.g1FromSlice bs = .ok P' ∧ P'.eq P = true :=
+  Sm9.g1_slice_roundtrip P hP hz
+theorem g1_uncompressed_roundtrip (P : G1) (hP : G1.Valid P) (hz : P.z ≠ 0) :
+    ∃ bs P', Api.g1ToUncompressed P = .ok bs ∧ Api.g1FromUncompressed bs = .ok P' ∧ P'.eq P = true :=
+  Sm9.g1_uncompressed_roundtrip P hP hz
+theorem g1_compressed_roundtrip (P : G1) (hP : G1.Valid P) (hz : P.z ≠ 0) :
+    ∃ bs P', Api.g1ToCompressed P = .ok bs ∧ Api.g1FromCompressed bs = .ok P' ∧ P'.eq P = true :=
+  Sm9.g1_compressed_roundtrip P hP hz
+theorem g2_slice_roundtrip (P : G2) (hP : G2.Valid P) (hz : P.z ≠ 0) (hsub : r • G2.toAff P = 0) :
+    ∃ bs P', Api.g2ToSlice P = .ok bs ∧ Api.g2FromSlice bs = .ok P' ∧ P'.eq P = true :=
+  Sm9.g2_slice_roundtrip P hP hz hsub
+theorem g2_uncompressed_roundtrip (P : G2) (hP : G2.Valid P) (hz : P.z ≠ 0) (hsub : r • G2.toAff P = 0) :
+    ∃ bs P', Api.g2ToUncompressed P = .ok bs ∧ Api.g2FromUncompressed bs = .ok P' ∧ P'.eq P = true :=
+  Sm9.g2_uncompressed_roundtrip P hP hz hsub
+theorem g2_compressed_roundtrip_up_to_sign (P : G2) (hP : G2.Valid P) (hz : P.z ≠ 0) (hsub : r • G2.toAff P = 0) :
+    ∃ bs P', Api.g2ToCompressed P = .ok bs ∧ Api.g2FromCompressed bs = .ok P' ∧
+      (P'.eq P = true ∨ P'.eq P.neg = true) := Sm9.g2_compressed_roundtrip_up_to_sign P hP hz hsub
+/-- **partial**: exact compressed round trip for G2 under Re y ≠ 0 (see the header) -/
+theorem g2_compressed_roundtrip_partial (P : G2) (hP : G2.Valid P) (hz : P.z ≠ 0)
+    (hsub : r • G2.toAff P = 0) (hre : (P.y / P.z ^ 3).c0 ≠ 0) :
+    ∃ bs P', Api.g2ToCompressed P = .ok bs ∧ Api.g2FromCompressed bs = .ok P' ∧ P'.eq P = true :=
+  Sm9.g2_compressed_roundtrip_partial P hP hz hsub hre
+/-- encodings do not depend on the representative -/
+theorem g1_encodings_rep_indep (P Q : G1) (hP : G1.Valid P) (hQ : G1.Valid Q) (h : G1.toAff P = G1.toAff Q) :
+    Api.g1ToSlice P = Api.g1ToSlice Q ∧ Api.g1ToUncompressed P = Api.g1ToUncompressed Q ∧
+    Api.g1ToCompressed P = Api.g1ToCompressed Q :=
+  ⟨Sm9.g1_to_slice_congr P Q hP hQ h, Sm9.g1_to_uncompressed_congr P Q hP hQ h, Sm9.g1_to_compressed_congr P Q hP hQ h⟩
+theorem g2_encodings_rep_indep (P Q : G2) (hP : G2.Valid P) (hQ : G2.Valid Q) (h : G2.toAff P = G2.toAff Q) :
+    Api.g2ToSlice P = Api.g2ToSlice Q ∧ Api.g2ToUncompressed P = Api.g2ToUncompressed Q ∧
+    Api.g2ToCompressed P = Api.g2ToCompressed Q :=
+  ⟨Sm9.g2_to_slice_congr P Q hP hQ h, Sm9.g2_to_uncompressed_congr P Q hP hQ h, Sm9.g2_to_compressed_congr P Q hP hQ h⟩
+/-! formats -/
 theorem g1_to_slice_identity (p : G1) (h : p.z = 0) : Api.g1ToSlice p = .panic := by
   unfold Api.g1ToSlice; rw [G1.to_affine_none_of_z p h]
 theorem g1_to_slice_layout (p : G1) (a : AffineG1) (h : p.to_affine = some a) :
@@ -24,9 +62,10 @@ theorem g2_to_slice_layout (p : G2) (a : AffineG2) (h : p.to_affine = some a) :
 theorem g2_to_compressed_layout (p : G2) (a : AffineG2) (h : p.to_affine = some a) :
     Api.g2ToCompressed p = .ok ((if a.y.c0.val % 2 == 0 then (2 : UInt8) else 3) :: (beBytes 32 a.x.c1.val ++ beBytes 32 a.x.c0.val)) := by
   unfold Api.g2ToCompressed; rw [h]; rfl
-/-- encodings depend on the value only through its affine conversion -/
-theorem enc_rep_indep (p p' : G1) (h : p.to_affine = p'.to_affine) :
-    Api.g1ToSlice p = Api.g1ToSlice p' ∧ Api.g1ToCompressed p = Api.g1ToCompressed p' := by
-  unfold Api.g1ToSlice Api.g1ToCompressed; rw [h]; exact ⟨rfl, rfl⟩
+/-- coordinates in an encoding are canonical: every 32-byte field is below q -/
+theorem coordinate_canonical (x : Fq) : beVal (Api.fqToSlice x) < q := by
+  unfold Api.fqToSlice
+  rw [beVal_beBytes 32 x.val (lt_trans x.isLt q_lt_pow)]
+  exact x.isLt
 
 end Sm9.C10
